@@ -55,6 +55,9 @@ func (s *badgerStore) Close() error {
 func (s *badgerStore) update(fn func(txn *badger.Txn) error) error {
 	for {
 		if err := s.db.Update(fn); err != badger.ErrConflict {
+			if err == nil {
+				verifAfterCommit()
+			}
 			return err
 		}
 	}
